@@ -58,14 +58,80 @@ def run_case(case, root):
     return {"obs": obs}
 
 
+def second_run(arg):
+    """fresh interpreter: relaunch from a saved state with a LatestStatesKeeper on the same states directory"""
+    a = json.loads(arg)
+    import logging
+    logging.disable(logging.CRITICAL)
+    from harness.sim.system import run_scenario
+    r = run_scenario(a["spec"])
+    print("RESULT " + json.dumps({"keeper_log": r.get("keeper_log"), "outcome": r.get("outcome"), "deadlock": r.get("deadlock"), "error": r.get("error"), "tb": r.get("tb")}))
+
+
+def run_sys(case):
+    """whole system: a first launch() leaves states behind; a second one resumes from one of them with a
+    LatestStatesKeeper on the same directory.  What was saved comes from the StateStore (not from what the keeper was
+    told), what was deleted and what is left from the keeper's return values and directory listings."""
+    import subprocess
+    from harness.sim.system import run_scenario
+    tmp = tempfile.mkdtemp(prefix="c18s_")
+    try:
+        r1 = run_scenario(dict(case["run1"], states_root=tmp))
+        if r1.get("deadlock") is not None or not r1.get("states"):
+            return {"error": f"run 1 did not finish: {r1.get('deadlock')}", "outcome": r1.get("outcome")}
+        sd = Path(tmp) / "states"
+        pre = sorted(p.name for p in sd.glob("*.state"))
+        # modification times in an order of their own (the keeper must go by them, not by the names)
+        perm = case["mt_perm"][:len(pre)] + list(range(len(case["mt_perm"]), len(pre)))
+        rank = sorted(range(len(pre)), key=lambda i: perm[i])
+        mt = {}
+        for r, i in enumerate(rank):
+            os.utime(sd / pre[i], (1_000_000 + 10 * r, 1_000_000 + 10 * r)); mt[pre[i]] = 10 * r + 1
+        (sd / "notes.txt").write_text("keep me")
+        resume = pre[case["load"] % len(pre)]
+        spec2 = dict(case["run2"], states_root=tmp, load_from=resume, same_states_dir=True, keeper_max_keep=case["mk"])
+        ch = subprocess.run([sys.executable, "-B", __file__, "--second", json.dumps({"spec": spec2})], capture_output=True, text=True, env=dict(os.environ), timeout=300)
+        line = [l for l in ch.stdout.splitlines() if l.startswith("RESULT ")]
+        if not line:
+            return {"error": "second run produced nothing", "stderr": ch.stderr[-800:]}
+        r2 = json.loads(line[-1][7:])
+        if r2.get("error"):
+            return {"error": r2["error"], "tb": r2.get("tb")}
+        if r2.get("deadlock") is not None or r2.get("keeper_log") is None:
+            return {"error": f"run 2 did not finish: {r2.get('deadlock')}", "outcome": r2.get("outcome")}
+        ids = {n: i + 1 for i, n in enumerate(pre)}
+        ids["notes.txt"] = 90
+
+        def num(n):
+            if n not in ids:
+                ids[n] = 10 + len(ids)
+            return ids[n]
+        ops, obs, last = [], [], None
+        for e in r2["keeper_log"]:
+            if e[0] == "saved":
+                ops.append(["append", num(e[1]), True]); obs.append([[], sorted(num(x) for x in e[2])])
+            else:
+                rem, lst = [num(x) for x in e[1]], sorted(num(x) for x in e[2])
+                if not rem and last == lst and ops and ops[-1][0] == "cleanup":
+                    continue            # an idle cleanup right after another one: nothing new
+                ops.append(["cleanup"]); obs.append([rem, lst])
+            last = obs[-1][1]
+        derived = {"mk": case["mk"], "matching": [ids[n] for n in pre], "mtimes": [[ids[n], mt[n]] for n in pre], "foreign": [90], "ops": ops}
+        return {"derived": derived, "obs": obs, "resumed_from": ids[resume]}
+    finally:
+        shutil.rmtree(tmp, ignore_errors=True)
+
+
 def main():
+    if len(sys.argv) > 2 and sys.argv[1] == "--second":
+        return second_run(sys.argv[2])
     cases = json.load(sys.stdin)
     tmp = tempfile.mkdtemp(prefix="pamiq_c18_")
     out = []
     try:
         for n, c in enumerate(cases):
             try:
-                out.append(run_case(c, os.path.join(tmp, f"c{n}")))
+                out.append(run_sys(c) if c.get("kind") == "sys" else run_case(c, os.path.join(tmp, f"c{n}")))
             except Exception as e:  # noqa: BLE001
                 import traceback
                 out.append({"error": f"{type(e).__name__}: {e}", "tb": traceback.format_exc()[-600:]})
